@@ -83,7 +83,8 @@ structure TI (L : Nat → Nat → Nat) (n : Node) (site : Nat) (st : TxSt) : Pro
     ¬ (e.vlo ≤ f.vlo ∧ f.vlo ≤ e.vhi))
   shape : ∀ e ∈ st.processed, e.vlo ≤ e.vhi ∧ ∀ q, e.part = some q →
     e.vlo = e.vhi ∧ RSet.WF q.seqs ∧ q.last = L site e.vlo ∧
-      (∀ p0, (n.booked site).partial? e.vlo = some p0 → p0.complete = false)
+      (∀ p0, (n.booked site).partial? e.vlo = some p0 → p0.complete = false) ∧
+      ∃ x, RSet.Mem q.seqs x
   clearsFrom : ∀ c ∈ st.clears, c.1 = site ∧
     ∃ e ∈ st.processed, e.part = none ∧ c.2.1 = e.vlo ∧ c.2.2 = e.vhi
   cleared : ∀ e ∈ st.processed, e.part = none → ∀ v, e.vlo ≤ v → v ≤ e.vhi →
@@ -110,5 +111,386 @@ theorem TI.init (L : Nat → Nat → Nat) (n : Node) (site : Nat) (hc : ConsA L 
     · rintro (h | ⟨e, he, _⟩)
       · exact h
       · cases he
+
+theorem dbvOf_congr {n n' : Node} (h : n'.dbv = n.dbv) (a : Nat) : dbvOf n' a = dbvOf n a := by
+  unfold dbvOf; rw [h]
+
+theorem hasBufferedMeta_of {n : Node} {site vlo vhi v : Nat} (h1 : vlo ≤ v) (h2 : v ≤ vhi)
+    (h : HasRows n site v ∨ ∃ c ∈ n.buf, c.site = site ∧ c.dbv = v) :
+    hasBufferedMeta n site vlo vhi = true := by
+  unfold hasBufferedMeta
+  simp only [Bool.or_eq_true, List.any_eq_true, decide_eq_true_eq]
+  rcases h with ⟨r, hr, hs, hv⟩ | ⟨c, hc, hs, hv⟩
+  · exact Or.inr ⟨r, hr, hs, by omega, by omega⟩
+  · exact Or.inl ⟨c, hc, hs, by omega, by omega⟩
+
+/-! ### the step that buffers a chunk -/
+
+theorem TI.buffer {L : Nat → Nat → Nat} {n : Node} {site : Nat} {st : TxSt} (h : TI L n site st)
+    (ver lo hi last : Nat) (cs : List Chg) (hlh : lo ≤ hi) (hlast : last = L site ver)
+    (hcw : ChunkWF site ver lo hi cs) (hseen : seenGet st.seen ver ≠ some none)
+    (hp0 : ∀ p0, (n.booked site).partial? ver = some p0 → p0.complete = false) :
+    TI L n site (stBuffer st site ver lo hi last cs) := by
+  have hf : ∀ r ∈ rowsOf st.node.seqRows site ver, r.lo ≤ r.hi := by
+    intro r hr; have := mem_rowsOf.mp hr; exact (h.rows_fwd r this.1 this.2.1).1
+  have hmlo := mergedLo_le st.node.seqRows site ver lo hi
+  have hmhi := le_mergedHi st.node.seqRows site ver lo hi
+  have hnone : ∀ e ∈ st.processed, e.part = none → ¬ (e.vlo ≤ ver ∧ ver ≤ e.vhi) := by
+    intro e he hn hc
+    exact hseen (h.seenNone ver ⟨e, he, hn, hc.1, hc.2⟩)
+  have hsm := seqMem_bufferChunk st.node site ver lo hi last cs hlh hf
+  have hsmo := seqMem_bufferChunk_other st.node site ver lo hi last cs
+  unfold stBuffer
+  simp only
+  refine ⟨h.book, h.alive, h.id, ?_, ?_, ?_, ?_, ?_, ?_, ?_, ?_, ?_, ?_, ?_, ?_⟩
+  · intro a ha
+    obtain ⟨o1, o2, o3⟩ := h.other a ha
+    refine ⟨?_, ?_, ?_⟩
+    · intro r hr
+      rw [mem_bufferChunk_rows_other (by rw [hr]; intro hc; exact ha hc.1)]
+      exact o1 r hr
+    · intro c hc
+      rw [← o2 c hc]
+      constructor
+      · intro hm
+        rcases mem_bufferChunk_buf hm with h1 | h1
+        · exact h1
+        · exact absurd ((hcw c h1).1 ▸ hc) (fun h' => ha h'.symm)
+      · exact mem_buf_bufferChunk
+    · exact (dbvOf_congr (bufferChunk_dbv _ _ _ _ _ _ _) a).trans o3
+  · rintro v ⟨e, he, hn, hc1, hc2⟩
+    rcases List.mem_append.mp he with he' | he'
+    · rw [seenGet_cons]
+      by_cases hv : ver ≤ v ∧ v ≤ ver
+      · have hvv : v = ver := by omega
+        rw [hvv] at hc1 hc2
+        exact absurd ⟨hc1, hc2⟩ (hnone e he' hn)
+      · rw [if_neg hv]; exact h.seenNone v ⟨e, he', hn, hc1, hc2⟩
+    · simp only [List.mem_singleton] at he'
+      rw [he'] at hn; cases hn
+  · rw [List.pairwise_append]
+    refine ⟨h.pw, List.pairwise_singleton _ _, ?_⟩
+    intro e he f hf'
+    simp only [List.mem_singleton] at hf'
+    subst hf'
+    intro hn _
+    exact hnone e he hn
+  · intro e he
+    rcases List.mem_append.mp he with he | he
+    · exact h.shape e he
+    · simp only [List.mem_singleton] at he
+      subst he
+      refine ⟨Nat.le_refl _, ?_⟩
+      intro q hq
+      simp only [Option.some.injEq] at hq
+      subst hq
+      refine ⟨rfl, ?_, hlast, hp0, ?_⟩
+      · rw [bufferChunk_eq]
+        exact ⟨Nat.zero_le _, by show mergedLo _ _ _ _ _ ≤ mergedHi _ _ _ _ _; omega, trivial⟩
+      · rw [bufferChunk_eq]
+        refine ⟨mergedLo st.node.seqRows site ver lo hi, ?_⟩
+        simp only [RSet.mem_singleton]
+        omega
+  · intro c hc
+    obtain ⟨h1, e, he, h2⟩ := h.clearsFrom c hc
+    exact ⟨h1, e, by simp [he], h2⟩
+  · intro e he hn v hv1 hv2 hex
+    rcases List.mem_append.mp he with he' | he'
+    · have hvne : v ≠ ver := by
+        intro hvv; rw [hvv] at hv1 hv2; exact hnone e he' hn ⟨hv1, hv2⟩
+      apply h.cleared e he' hn v hv1 hv2
+      rcases hex with hr | ⟨c, hc, hs, hd⟩
+      · exact Or.inl ((hasRows_bufferChunk_other _ _ _ _ _ _ _ site v (fun hc => hvne hc.2)).mp hr)
+      · right
+        rcases mem_bufferChunk_buf hc with h1 | h1
+        · exact ⟨c, h1, hs, hd⟩
+        · exact absurd ((hcw c h1).2.1 ▸ hd) (fun h' => hvne h'.symm)
+    · simp only [List.mem_singleton] at he'
+      rw [he'] at hn; cases hn
+  · intro r hr hs
+    by_cases hv : r.ver = ver
+    · rw [bufferChunk_eq] at hr
+      simp only [List.mem_append, List.mem_filter, List.mem_singleton] at hr
+      rcases hr with ⟨h1, _⟩ | h1
+      · exact h.rows_fwd r h1 hs
+      · subst h1
+        exact ⟨by show mergedLo _ _ _ _ _ ≤ mergedHi _ _ _ _ _; omega, hlast⟩
+    · rw [mem_bufferChunk_rows_other (fun hc => hv hc.2)] at hr
+      exact h.rows_fwd r hr hs
+  · intro v x
+    by_cases hv : v = ver
+    · subst hv
+      have hnew : SeqMem (st.node.bufferChunk site v lo hi last cs).1.seqRows site v x ↔
+          SeqMem st.node.seqRows site v x ∨
+            RSet.Mem [(st.node.bufferChunk site v lo hi last cs).2] x := by
+        rw [hsm x, bufferChunk_eq]
+        simp only [RSet.mem_singleton]
+        constructor
+        · rintro (h1 | h1)
+          · exact Or.inl h1
+          · right; omega
+        · rintro (h1 | h1)
+          · exact Or.inl h1
+          · rw [← hsm x]
+            exact ⟨⟨site, v, mergedLo st.node.seqRows site v lo hi, mergedHi st.node.seqRows site v lo hi, last⟩,
+              by rw [bufferChunk_eq]; simp, rfl, rfl, h1.1, h1.2⟩
+      rw [hnew, h.seqmem v x]
+      constructor
+      · rintro ((h1 | ⟨e, he, h2⟩) | h1)
+        · exact Or.inl h1
+        · exact Or.inr ⟨e, by simp [he], h2⟩
+        · exact Or.inr ⟨⟨v, v, some ⟨[(st.node.bufferChunk site v lo hi last cs).2], last⟩⟩,
+            List.mem_append.mpr (Or.inr (List.mem_singleton.mpr rfl)), rfl, _, rfl, h1⟩
+      · rintro (h1 | ⟨e, he, h2, q, h3, h4⟩)
+        · exact Or.inl (Or.inl h1)
+        · rcases List.mem_append.mp he with he | he
+          · exact Or.inl (Or.inr ⟨e, he, h2, q, h3, h4⟩)
+          · simp only [List.mem_singleton] at he
+            subst he
+            simp only [Option.some.injEq] at h3
+            subst h3
+            exact Or.inr h4
+    · rw [hsmo site v (fun hc => hv hc.2) x, h.seqmem v x]
+      constructor
+      · rintro (h1 | ⟨e, he, h2⟩)
+        · exact Or.inl h1
+        · exact Or.inr ⟨e, by simp [he], h2⟩
+      · rintro (h1 | ⟨e, he, h2, h3⟩)
+        · exact Or.inl h1
+        · rcases List.mem_append.mp he with he | he
+          · exact Or.inr ⟨e, he, h2, h3⟩
+          · simp only [List.mem_singleton] at he
+            subst he
+            exact absurd h2.symm hv
+  · intro c hc hs
+    rcases mem_bufferChunk_buf hc with h1 | h1
+    · have := h.buf_cov c h1 hs
+      by_cases hv : c.dbv = ver
+      · rw [hv, hsm]; left; rw [← hv]; exact this
+      · rw [hsmo site c.dbv (fun hc' => hv hc'.2)]; exact this
+    · have := hcw c h1
+      rw [this.2.1, hsm]; right; exact this.2.2
+  · exact h.dbv_ge
+  · rcases h.dbv_le with h1 | ⟨e, he, h1⟩
+    · exact Or.inl h1
+    · exact Or.inr ⟨e, by simp [he], h1⟩
+  · intro e he hn hm
+    rcases List.mem_append.mp he with he' | he'
+    · exact h.dbv_none e he' hn hm
+    · simp only [List.mem_singleton] at he'
+      rw [he'] at hn; cases hn
+
+/-! ### the step that clears / completes a version range -/
+
+theorem TI.noneStep {L : Nat → Nat → Nat} {n : Node} {site : Nat} {st : TxSt} (h : TI L n site st)
+    (N' : Node) (vlo vhi : Nat) (hv : vlo ≤ vhi)
+    (hbook : N'.book = st.node.book) (halive : N'.alive = st.node.alive) (hid : N'.id = st.node.id)
+    (hrows : N'.seqRows = st.node.seqRows) (hbuf : N'.buf = st.node.buf)
+    (hdo : ∀ a, a ≠ site → dbvOf N' a = dbvOf st.node a)
+    (hd1 : dbvOf st.node site ≤ dbvOf N' site)
+    (hd2 : dbvOf N' site ≤ dbvOf st.node site ∨ dbvOf N' site ≤ vhi)
+    (hd3 : (n.booked site).max ≤ vhi → vhi ≤ dbvOf N' site) :
+    TI L n site
+      { node := N', seen := seenInsert st.seen (vlo, vhi) none,
+        processed := st.processed ++ [⟨vlo, vhi, none⟩],
+        clears := if hasBufferedMeta N' site vlo vhi then st.clears ++ [(site, vlo, vhi)] else st.clears } := by
+  have hhr : ∀ v, HasRows N' site v ↔ HasRows st.node site v := by
+    intro v; unfold HasRows; rw [hrows]
+  refine ⟨hbook.trans h.book, halive.trans h.alive, hid.trans h.id, ?_, ?_, ?_, ?_, ?_, ?_, ?_, ?_, ?_, ?_, ?_, ?_⟩
+  · intro a ha
+    obtain ⟨o1, o2, o3⟩ := h.other a ha
+    exact ⟨by rw [hrows]; exact o1, by rw [hbuf]; exact o2, (hdo a ha).trans o3⟩
+  · rintro v ⟨e, he, hn, hc1, hc2⟩
+    simp only at he
+    rw [seenGet_cons]
+    by_cases hvv : vlo ≤ v ∧ v ≤ vhi
+    · rw [if_pos hvv]
+    · rw [if_neg hvv]
+      rcases List.mem_append.mp he with he' | he'
+      · exact h.seenNone v ⟨e, he', hn, hc1, hc2⟩
+      · simp only [List.mem_singleton] at he'
+        rw [he'] at hc1 hc2
+        exact absurd ⟨hc1, hc2⟩ hvv
+  · simp only
+    rw [List.pairwise_append]
+    refine ⟨h.pw, List.pairwise_singleton _ _, ?_⟩
+    intro e _ f hf'
+    simp only [List.mem_singleton] at hf'
+    rw [hf']
+    intro _ hs; cases hs
+  · intro e he
+    simp only at he
+    rcases List.mem_append.mp he with he' | he'
+    · exact h.shape e he'
+    · simp only [List.mem_singleton] at he'
+      rw [he']
+      exact ⟨hv, fun q hq => by cases hq⟩
+  · intro c hc
+    simp only at hc
+    have hold : ∀ c ∈ st.clears, c.1 = site ∧
+        ∃ e ∈ st.processed ++ [(⟨vlo, vhi, none⟩ : Processed)], e.part = none ∧ c.2.1 = e.vlo ∧ c.2.2 = e.vhi := by
+      intro c hc
+      obtain ⟨h1, e, he, h2⟩ := h.clearsFrom c hc
+      exact ⟨h1, e, by simp [he], h2⟩
+    split at hc
+    · rcases List.mem_append.mp hc with hc' | hc'
+      · exact hold c hc'
+      · simp only [List.mem_singleton] at hc'
+        rw [hc']
+        exact ⟨rfl, ⟨vlo, vhi, none⟩, by simp, rfl, rfl, rfl⟩
+    · exact hold c hc
+  · intro e he hn v hv1 hv2 hex
+    simp only at he hex ⊢
+    have hex' : HasRows st.node site v ∨ ∃ c ∈ st.node.buf, c.site = site ∧ c.dbv = v := by
+      rw [← hhr v, ← hbuf]; exact hex
+    rcases List.mem_append.mp he with he' | he'
+    · obtain ⟨c, hc, h1⟩ := h.cleared e he' hn v hv1 hv2 hex'
+      refine ⟨c, ?_, h1⟩
+      split
+      · exact List.mem_append.mpr (Or.inl hc)
+      · exact hc
+    · simp only [List.mem_singleton] at he'
+      rw [he'] at hv1 hv2
+      simp only at hv1 hv2
+      rw [if_pos (hasBufferedMeta_of hv1 hv2 hex)]
+      exact ⟨(site, vlo, vhi), by simp, hv1, hv2⟩
+  · simp only; rw [hrows]; exact h.rows_fwd
+  · intro v x
+    simp only
+    rw [hrows, h.seqmem v x]
+    constructor
+    · rintro (h1 | ⟨e, he, h2⟩)
+      · exact Or.inl h1
+      · exact Or.inr ⟨e, by simp [he], h2⟩
+    · rintro (h1 | ⟨e, he, h2, q, h3, h4⟩)
+      · exact Or.inl h1
+      · rcases List.mem_append.mp he with he' | he'
+        · exact Or.inr ⟨e, he', h2, q, h3, h4⟩
+        · simp only [List.mem_singleton] at he'
+          rw [he'] at h3; cases h3
+  · simp only; rw [hrows, hbuf]; exact h.buf_cov
+  · exact Nat.le_trans h.dbv_ge hd1
+  · simp only
+    rcases hd2 with h1 | h1
+    · rcases h.dbv_le with h2 | ⟨e, he, h2⟩
+      · exact Or.inl (Nat.le_trans h1 h2)
+      · exact Or.inr ⟨e, by simp [he], Nat.le_trans h1 h2⟩
+    · exact Or.inr ⟨⟨vlo, vhi, none⟩, by simp, h1⟩
+  · intro e he hn hm
+    simp only at he ⊢
+    rcases List.mem_append.mp he with he' | he'
+    · exact Nat.le_trans (h.dbv_none e he' hn hm) hd1
+    · simp only [List.mem_singleton] at he'
+      rw [he'] at hm ⊢
+      exact hd3 hm
+
+theorem TI.complete {L : Nat → Nat → Nat} {n : Node} {site : Nat} {st : TxSt} (h : TI L n site st)
+    (ver : Nat) (cs : List Chg) (hne : cs ≠ []) (hcs : ∀ c ∈ cs, c.site = site ∧ c.dbv = ver) :
+    TI L n site (stComplete st site ver cs) := by
+  have hmax : ∀ x y : Nat, Nat.max x y = max x y := fun _ _ => rfl
+  have hd := dbvOf_mergeChanges st.node cs site ver hcs
+  unfold stComplete
+  simp only
+  refine h.noneStep (st.node.mergeChanges cs) ver ver (Nat.le_refl _) (mergeChanges_book _ _)
+    (mergeChanges_alive _ _) (mergeChanges_id _ _) (mergeChanges_seqRows _ _) (mergeChanges_buf _ _)
+    ?_ ?_ ?_ ?_
+  · intro a ha; rw [hd a, if_neg (fun hc => ha hc.1)]
+  · rw [hd site, if_pos ⟨rfl, hne⟩, hmax]; omega
+  · rw [hd site, if_pos ⟨rfl, hne⟩, hmax]; omega
+  · intro _; rw [hd site, if_pos ⟨rfl, hne⟩, hmax]; omega
+
+theorem TI.clearedStep {L : Nat → Nat → Nat} {n : Node} {site : Nat} {st : TxSt} (h : TI L n site st)
+    (vlo vhi : Nat) (hv : vlo ≤ vhi) :
+    TI L n site (stCleared (n.booked site) st site vlo vhi) := by
+  have hmax : ∀ x y : Nat, Nat.max x y = max x y := fun _ _ => rfl
+  unfold stCleared
+  simp only
+  by_cases hm : (n.booked site).max ≤ vhi
+  · simp only [if_pos hm]
+    refine h.noneStep (st.node.bumpDbv site vhi) vlo vhi hv (bumpDbv_book _ _ _) (bumpDbv_alive _ _ _)
+      (bumpDbv_id _ _ _) (bumpDbv_seqRows _ _ _) (bumpDbv_buf _ _ _) ?_ ?_ ?_ ?_
+    · intro a ha; rw [dbvOf_bumpDbv, if_neg ha]
+    · rw [dbvOf_bumpDbv, if_pos rfl, hmax]; omega
+    · rw [dbvOf_bumpDbv, if_pos rfl, hmax]; omega
+    · intro _; rw [dbvOf_bumpDbv, if_pos rfl, hmax]; omega
+  · simp only [if_neg hm]
+    exact h.noneStep st.node vlo vhi hv rfl rfl rfl rfl rfl (fun _ _ => rfl) (Nat.le_refl _)
+      (Or.inl (Nat.le_refl _)) (fun hc => absurd hc hm)
+
+/-! ### one changeset -/
+
+/-- a version held as a complete partial (applied or not) is "contained" for every seq range up to
+its `last_seq` -/
+theorem contains_of_complete {b : Booked} {v lo hi : Nat} {p0 : Partial} (hw : RSet.WF p0.seqs)
+    (hp : b.partial? v = some p0) (hc : p0.complete = true) (hhi : hi ≤ p0.last)
+    (hk : v ≤ b.max ∧ ¬ RSet.Mem b.needed v) : b.contains v (some (lo, hi)) = true := by
+  unfold Booked.contains Booked.containsVersion
+  rw [hp]
+  simp only [Bool.and_eq_true, Bool.not_eq_true', decide_eq_true_eq]
+  refine ⟨⟨?_, hk.1⟩, ?_⟩
+  · cases hcn : RSet.contains b.needed v with
+    | false => rfl
+    | true => exact absurd ((RSet.contains_iff _ _).mp hcn) hk.2
+  · rw [wf_isEmpty_iff (RSet.gaps_wfFrom p0.seqs lo hi 0 hw)]
+    intro x hx
+    have := (RSet.mem_gaps p0.seqs lo hi x 0 hw).mp hx
+    exact this.2 ((complete_iff hw).mp hc x (by omega))
+
+theorem TI.step {L : Nat → Nat → Nat} {n : Node} {site : Nat} {st : TxSt} (hc : ConsA L n site)
+    (h : TI L n site st) (it : Item) (hwf : ItemWF L it) (hs : it.site = site) :
+    TI L n site (processOne (n.booked site) st it) := by
+  cases it with
+  | empty s vlo vhi =>
+    simp only [Item.site] at hs
+    subst hs
+    rw [processOne_empty]
+    split
+    · exact h
+    · split
+      · exact h
+      · exact h.clearedStep vlo vhi hwf
+  | full s ver lo hi last cs =>
+    simp only [Item.site] at hs
+    subst hs
+    obtain ⟨hl, hhi, hcw⟩ := hwf
+    rw [processOne_full]
+    split
+    · exact h
+    · rename_i hnc
+      split
+      · exact h
+      · rename_i hns
+        split
+        · exact h.clearedStep ver ver (Nat.le_refl _)
+        · rename_i hne
+          split
+          · exact h
+          · rename_i hlh
+            split
+            · rename_i hcomp
+              have hcs : cs ≠ [] := by
+                intro he
+                apply hne
+                rw [hcomp, he]; rfl
+              exact h.complete ver cs hcs (fun c hc' => ⟨(hcw c hc').1, (hcw c hc').2.1⟩)
+            · refine h.buffer ver lo hi last cs (by omega) hl hcw ?_ ?_
+              · exact not_alreadySeen_full (by simpa using hns)
+              · intro p0 hp0
+                cases hcc : p0.complete with
+                | false => rfl
+                | true =>
+                  exfalso
+                  apply hnc
+                  rw [containsAll_single]
+                  exact contains_of_complete (hc.pwf.of_partial? hp0) hp0 hcc
+                    (by rw [hc.part_last ver p0 hp0, ← hl]; exact hhi) (hc.part_known ver p0 hp0)
+
+theorem txFold_TI {L : Nat → Nat → Nat} {n : Node} {site : Nat} (hc : ConsA L n site) (items : List Item)
+    (hwf : ∀ it ∈ items, ItemWF L it ∧ it.site = site) : TI L n site (txFold n site items) := by
+  unfold txFold
+  apply foldl_inv (TI L n site)
+  · exact TI.init L n site hc
+  · intro st it hit hst
+    exact TI.step hc hst it (hwf it hit).1 (hwf it hit).2
 
 end Corro.Node
